@@ -52,4 +52,6 @@ def shift(
 ) -> NDArray[np.float32]:
     """Shift the image by nm."""
     shift_px = np.asarray(shift) / scale
-    return ndi_shift(img, shift_px, order=1, prefilter=order > 1, mode=mode, cval=cval)
+    return ndi_shift(
+        img, shift_px, order=order, prefilter=order > 1, mode=mode, cval=cval
+    )
